@@ -82,3 +82,9 @@ def run(chk):
     UC.run_family(chk, 'C02', [(['U2', 'C2'] + (['M2'] if thorough else []), fs + rnd + rep)], entries=('ext_dirty', 'ext', 'ext_multi_dirty'), check_unit=True)
     # README equivalences end to end: the iff-formula must evaluate to the unit set
     UC.run_family(chk, 'C02', [(['U2', 'C2'], pairs)], entries=('ext_dirty',))
+    small = [f for sz in (2, 3, 4) for f in G.enumerate_formulas(sz)] + (G.sample_small(chk.rng, 3000, sizes=(5,)) if thorough else [])
+    if not thorough: small = G.sample_small(chk.rng, 300, sizes=(3, 4, 5))
+    small = [f for f in small if S.labels(f)[0] | S.labels(f)[1]]
+    chk.bounds['E-UNI sweep'] = f'{len(small)} extended formulas over a reduced alphabet (wild-card w, domain d): ' + ('every formula with <= 4 nodes + 3000 with 5 nodes' if thorough else 'seed-chosen sample of the formulas with 3..5 nodes')
+    UC.sweep(chk, 'C02', small, which=('U2', 'C2') if thorough else ('U2',), check_unit=True)
+
